@@ -427,7 +427,35 @@ def rule_e(ctx: Ctx) -> None:
         ctx.fail(m, cols[0], ext.key, cols[0], f"the column restarts after the last of {sorted(found)} but the counted line breaks are {sorted(singles)}")
 
 
-RULES = [rule_a, rule_b, rule_c, rule_d, rule_e]
+def rule_f(ctx: Ctx) -> None:
+    ctx.rule("C13.f", "context windows are clamped: a slice of the source text whose lower bound is computed by subtraction (offset - context) is wrapped in max(0, ...) — "
+                      "a negative lower bound wraps around and selects text from the end of the input")
+    n = 0
+    for mn in ("sqlglot.errors", "sqlglot.tokenizer_core", "sqlglot.parser", "sqlglot.tokens"):
+        m = ctx.repo.module(mn)
+        for s_ in m.of_type(ast.Subscript):
+            if not (isinstance(s_.slice, ast.Slice) and s_.slice.lower is not None and isinstance(s_.ctx, ast.Load)):
+                continue
+            lo = s_.slice.lower
+            subs = [x for x in ast.walk(lo) if isinstance(x, ast.BinOp) and isinstance(x.op, ast.Sub) and not (isinstance(x.left, ast.Constant) and isinstance(x.right, ast.Constant))]
+            if not subs:
+                continue
+            n += 1
+            f = m.enclosing_func(s_)
+            where = f.key if f else mn
+            inst = f"{where}|{norm(s_, 70)}"
+            clamped = isinstance(lo, ast.Call) and call_name(lo) == "max" and any(isinstance(a, ast.Constant) and a.value == 0 for a in lo.args)
+            # `x - k` with the same x tested `>= k` / truthy just before is also fine; only the max(0, ..) idiom occurs in this code base
+            if clamped:
+                ctx.ok(inst, {"slice": norm(s_, 70), "lower_bound": norm(lo, 50)})
+            else:
+                ctx.fail(m, s_, where, s_, f"the lower bound `{norm(lo, 50)}` can be negative (no max(0, ...)): the slice then starts from the end of the text, so the reported "
+                                           f"context no longer is the text in front of the token")
+    ctx.count("subtractive_slice_bounds", n)
+    ctx.min_instances("subtractive_slice_bounds", n, 1)
+
+
+RULES = [rule_a, rule_b, rule_c, rule_d, rule_e, rule_f]
 EXPLANATION = (
     "Representation invariants of the scanner cursor checked symbolically on every block that writes _current (linear "
     "normal form of offsets with local resolution, so the str.find and alnum fast paths are covered), the token stamp, "
